@@ -145,6 +145,10 @@ FwdRetention(S, S2, t0, t1) ==
   Chk("C14:forward-retention",
       \A nd \in NewDels(S, S2) : nd[2] \in DOMAIN S.subs =>
          In(S2.del[nd].exp, t0 + S.subs[nd[2]].mttl, t1 + S.subs[nd[2]].mttl))
+  \* C02: a dead-letter subscription only gets forwarded messages that satisfy ITS filter
+  \cup Chk("C02:forward-ignores-filter",
+      \A nd \in NewDels(S, S2) : (nd[2] \in DOMAIN S.subs /\ nd[1] \in DOMAIN S.msgs) =>
+         Match(S.subs[nd[2]].filt, S.msgs[nd[1]].attrs))
   \cup Chk("C14:forward-delay",
       \A nd \in NewDels(S, S2) : nd[2] \in DOMAIN S.subs =>
          In(S2.del[nd].at, t0 + S.subs[nd[2]].delay, t1 + S.subs[nd[2]].delay))
